@@ -16,6 +16,7 @@ func verifC06Pools() int {
 }
 
 func Verif_C06_withdraw() {
+	vLockEndMax = 20000000000 // lock ends up to the year 2603: "locked forever" pools whose end does not fit in int64 nanoseconds
 	k := verifVestingKeeper()
 	T := verif_time_range("now", vVT0, vVT1)
 	ctx := verifCtx(T)
